@@ -3,7 +3,7 @@ from . import cacheworld as cw
 
 PROP = 'C04'
 PROFILE = 'c04'
-QUICK = (64, 60, 50.0)
+QUICK = (96, 60, 60.0)
 THOROUGH = (1200, 100, 840.0)
 boot, execute, cfg_sig, nontrivial = cw.boot, cw.execute, cw.cfg_sig, cw.nontrivial
 SHRINK_LISTS, SHRINK_DICTS = cw.SHRINK_LISTS, cw.SHRINK_DICTS
@@ -15,3 +15,34 @@ def gen_config(rng, tier):
 
 def gen_plan(rng, cfg, tier):
   return cw.gen_plan(rng, cfg, tier, PROFILE)
+
+
+# ---- thorough tier: crash-point enumeration ------------------------------------
+# For every ENUM_EVERY-th seeded run the stop is additionally injected at *every* line
+# the writer thread executes after the receiver's last operation (each line of each
+# loop iteration, the rate-limit waits and the idle sleeps included), one re-execution
+# per placement, from the schedule the base run recorded.
+ENUM_EVERY = {'thorough': 8, 'quick': 60}
+LEVEL_NOTE = 'exploration + crash-point enumeration relative to seeded base runs'
+
+
+def enumeration_base(plan):
+  p = dict(plan)
+  p['ops'] = [op for op in plan['ops'] if op[0] != 'stop']
+  p['stop_at_end'] = False
+  p.pop('db_faults', None)
+  return p
+
+
+def enumerate_variants(base, bres, rng, tier):
+  n = int(bres.get('w_steps_after_ops', 0))
+  js = list(range(1, n + 1))
+  cap = 250 if tier == 'thorough' else 30
+  if len(js) > cap:
+    # thorough: every line up to 250 placements; quick: a seeded sample of 30
+    js = sorted(rng.sample(js, cap)) if tier != 'thorough' else \
+        sorted(set(js[int(i * len(js) / float(cap))] for i in range(cap)))
+  for j in js:
+    v = dict(base)
+    v['ops'] = list(base['ops']) + [['stop_at_wstep', j]]
+    yield v
